@@ -18,6 +18,11 @@ STRENGTHENED = {
  "C11-m10": "missed at first: the custom gene's negation was an involution, so being negated twice looked like not being negated; it now counts how often it was applied (at most once; exactly once at rate 1, never at rate 0)",
  "C13-m9": "missed at first: C13 only selected from non-empty populations; it now also selects from an empty one (an all-zero combination still reports its zero-weight error, any other delegates to exactly one positive-weight member)",
  "C15-m9": "missed at first: Score / Error were only instantiated with totally ordered inner types; they now also wrap f64 with NaNs, infinities and signed zeros (every operator must agree with partial_cmp, all false where it is None), u64 and i128 extremes",
+ "C07-m12": "missed at first, as a hang: on a population with fewer distinct values than the tournament size the changed loop never terminates, and the check would have sat there until an outer time-out without a verdict. Every check now has a hang watchdog: a worker thread that burns more than the CPU budget (300 s quick, 900 s thorough; largest gap seen on the unchanged tree < 1 s) inside one monitored evaluation is reported as <ID>/hang with the shard it was working on",
+ "C10-m11": "missed at first, as a crash of the monitor itself: the oracle of crossover_segment indexed the genomes after the call assuming their lengths were unchanged, and the change swaps whole buffers of different lengths; lengths are now compared before contents",
+ "C15-m11": "missed at first: individuals and result collections were only built over totally ordered results; they now also wrap TestResult<f64, f64> (score against error, NaN) and plain f64, alone and nested, and every comparison operator must agree with the results' own partial order - incomparable stays incomparable",
+ "C16-m11": "missed at first: in the call histories on one operator value every call succeeded; the call in the middle is now also one on an empty population and one that fails part-way (an individual with fewer results than lexicase looks at), and must leave nothing behind in the operator value",
+ "C17-m11": "missed at first: dynamic weighted lists were never nested; lists inside lists (depth 1-3, innermost failing with its own zero-weight error, with a member's cause chain, or on an empty population) must now deliver the innermost error wrapped exactly once per level",
  "C15-m10": "missed at first: copies were never made through clone_from; EcIndividual and TestResults are now also copied with clone_from and Vec::clone_from (overwriting existing elements) and must equal their source",
  "C16-m9": "missed at first, as a harness build failure: the change adds Send + Sync bounds to Map's Vec impl, which C14's Rc-based probes do not satisfy, and all ec monitors lived in one binary. Every property now has its own binary, and C16's registry maps an operator over vectors of up to 2049 genomes",
  "C17-m10": "missed at first: the member errors used behind DynWeighted had no cause chain; a member whose error has a two-level source chain is now used and the whole chain must be reachable through source() from what the list reports",
